@@ -20,6 +20,7 @@ enum Mode {
     RefResplit,     // branches dropped and by_ref() called again before every step
     Rc,             // by_rc() from the start
     RefThenRc(u8),  // by_ref for the first k steps (re-split every step), then by_rc
+    CloneAt(u8),    // by_ref (re-split every step) for the first k steps, then the fork is cloned and the CLONE is driven
 }
 
 impl Mode {
@@ -29,6 +30,7 @@ impl Mode {
             Mode::RefResplit => "ref_resplit".into(),
             Mode::Rc => "rc".into(),
             Mode::RefThenRc(k) => format!("ref_then_rc:{k}"),
+            Mode::CloneAt(k) => format!("clone_at:{k}"),
         }
     }
     fn parse(s: &str) -> Option<Mode> {
@@ -36,6 +38,7 @@ impl Mode {
             "ref_hold" => Mode::RefHold,
             "ref_resplit" => Mode::RefResplit,
             "rc" => Mode::Rc,
+            _ if s.starts_with("clone_at:") => Mode::CloneAt(s.strip_prefix("clone_at:")?.parse().ok()?),
             _ => Mode::RefThenRc(s.strip_prefix("ref_then_rc:")?.parse().ok()?),
         })
     }
@@ -47,7 +50,7 @@ struct Ref {
     pos: [usize; 2],
 }
 
-fn source() -> (impl Signal<Frame = f64>, Counters) {
+fn source() -> (impl Signal<Frame = f64> + Clone, Counters) {
     Gen::new(|n| n as f64)
 }
 
@@ -128,6 +131,42 @@ fn run_history_inner(cap: usize, start: usize, mode: Mode, hist: u128, len: usiz
             }
             if i < len {
                 let (mut a, mut b) = fork.by_rc();
+                while i < len {
+                    let who = ((hist >> i) & 1) as usize;
+                    if !within(&r, who) {
+                        break;
+                    }
+                    step!(a, b, who, &mut r);
+                    i += 1;
+                }
+            }
+        }
+        Mode::CloneAt(k) => {
+            // the clone has seen the same frames as its original: both of its branches must go on
+            // exactly where the original's stood (the original is not pulled any more, so the shared
+            // pull counter keeps counting for the clone)
+            while i < len && i < k as usize {
+                let who = ((hist >> i) & 1) as usize;
+                if !within(&r, who) {
+                    return Ok((i, r.pos));
+                }
+                let (mut a, mut b) = fork.by_ref();
+                step!(a, b, who, &mut r);
+                i += 1;
+            }
+            let mut f2 = fork.clone();
+            if i % 2 == 0 {
+                let (mut a, mut b) = f2.by_ref();
+                while i < len {
+                    let who = ((hist >> i) & 1) as usize;
+                    if !within(&r, who) {
+                        break;
+                    }
+                    step!(a, b, who, &mut r);
+                    i += 1;
+                }
+            } else {
+                let (mut a, mut b) = f2.by_rc();
                 while i < len {
                     let who = ((hist >> i) & 1) as usize;
                     if !within(&r, who) {
@@ -321,7 +360,7 @@ fn main() {
     }
     let len = ctx.tier.pick(16, 20);
     let maxcap: usize = ctx.tier.pick(4, 6);
-    ctx.rule(&format!("unmerged: every A/B history of length {len} (quick 16 / thorough 20) for capacities 1..=4 (thorough 1..=6), each replayed on a fresh fork over an index-valued instrumented source; a step that would put one branch more than `capacity` ahead ends the history (outside the property's domain); modes: by_ref held, by_ref re-split before every step, by_rc, by_ref for k steps then by_rc for every k; every ring start offset; after every step: the branch's k-th frame is k, source pulls == max(posA,posB), pending_frames == lag; non-trivial = a history in which both branches were pulled, distinct by (capacity, start, mode, history)"));
+    ctx.rule(&format!("unmerged: every A/B history of length {len} (quick 16 / thorough 20) for capacities 1..=4 (thorough 1..=6), each replayed on a fresh fork over an index-valued instrumented source; a step that would put one branch more than `capacity` ahead ends the history (outside the property's domain); modes: by_ref held, by_ref re-split before every step, by_rc, by_ref for k steps then by_rc for every k, by_ref for k <= 8 steps then Fork::clone() with the rest of the history driven on the clone (by_ref or by_rc); every ring start offset; after every step: the branch's k-th frame is k, source pulls == max(posA,posB), pending_frames == lag; non-trivial = a history in which both branches were pulled, distinct by (capacity, start, mode, history)"));
     ctx.rule("merged: stateright BFS to fixpoint on (lead, min(posA,posB) mod capacity), also for the larger capacities 8, 16, 24, 32, 48, each transition executed on a real fork rebuilt by replaying the BFS witness history; constructor: fork() accepts every empty ring buffer (any start offset) of capacities 1..=4");
 
     // constructor
@@ -349,6 +388,9 @@ fn main() {
         jobs.push((cap, cap - 1, Mode::Rc));
         for k in 0..=len as u8 {
             jobs.push((cap, 0, Mode::RefThenRc(k)));
+        }
+        for k in 0..=(len as u8).min(8) {
+            jobs.push((cap, cap / 2, Mode::CloneAt(k)));
         }
     }
     let hist_n = AtomicU64::new(0);
